@@ -319,3 +319,23 @@ def _same_tokens(a, b, rtol=1e-9):
         if abs(fx - fy) > rtol * max(abs(fx), abs(fy)):
             return False
     return True
+
+
+@proof("C02", "scenario/size-based-chops/written-moved-written", cases=list(__import__("contracts.spec.regrade", fromlist=["CASES"]).CASES), level="S", samples=1,
+       functions=["classy_blocks.grading.chop:Chop.calculate", "classy_blocks.lists.block_list:BlockList.grade_blocks",
+                  "classy_blocks.lists.block_list:BlockList.propagate_gradings"],
+       note="executed contract (no symbolic content): size-based chops, write, move vertices so that the chopped edges change length, "
+            "write again - propagation completes and every direction of a family gets the count derived from the chop at the "
+            "geometry as it is now, i.e. what a freshly built model of the moved geometry gets (round 5: counts remembered on a Chop)")
+def written_moved_written(ctx):
+    from contracts.spec import regrade
+
+    r = regrade.write_move_write(ctx.case)
+    ctx.prove("first-write-succeeds", r["first"][1] is None, exc=repr(r["first"][1])[:200])
+    text, exc = r["second"]
+    ctx.prove("second-write-succeeds", exc is None, exc=repr(exc)[:200])
+    if exc is None:
+        ctx.prove("second-write/every-direction-defined", all(ax.is_defined for b in r["mesh"].blocks for ax in b.axes))
+        ctx.prove("second-write/counts-are-those-derived-from-the-chops-at-the-moved-geometry",
+                  [ax.count for b in r["mesh"].blocks for ax in b.axes] == [ax.count for b in r["fresh"].blocks for ax in b.axes])
+        ctx.prove("second-write/same-file-as-a-fresh-model-of-the-moved-geometry", "".join(text.split()) == "".join(r["fresh_written"][0].split()))
